@@ -363,7 +363,7 @@ fn guard_checks(ctx: &mut Ctx) {
 
 fn run(ctx: &mut Ctx) {
     let mut r = StdRng::seed_from_u64(ctx.shard_seed());
-    let n = ctx.tier.pick(200, 2000);
+    let n = ctx.tier.pick(200, 5000);
     guard_checks(ctx);
     let cmds: Vec<Vec<String>> = vec![
         vec!["printf '%s|' one".into()],
